@@ -303,6 +303,93 @@ def unit_rejections():
     return kit.run_unit("rejections", run)
 
 
+def unit_any_size(method, bc=None):
+    """EVERY number of samples: the real SQuad code on tensors of symbolic length (LAM domain, props/anysize.py)"""
+    from pydv import lam
+    from pydv.core import fresh_int
+    from props import anysize as A
+
+    def run():
+        c = ctx()
+        nx = fresh_int("nx")
+        n = nx.e
+        tag = "any_size[%s%s]" % (method, "/" + bc if bc else "")
+        c.assume(n >= (3 if method == "cspline" else 2))
+        x, y = lam.sym("x", nx), lam.sym("y", nx)
+        X, Y = A.Seq(lambda i: x.fn((i,))), A.Seq(lambda i: y.fn((i,)))
+        c.ghost["lam_invariants"] = dict(A.INVARIANTS)
+        opts = {"bc_type": bc} if bc else {}
+        with A.lam_world() as m:
+            ok, obj = kit.call_or_fail(c, tag + ":constructor_does_not_raise", lambda: m["sd"].SQuad(x, method=method, **opts))
+            if not ok:
+                return
+            ok, cs = kit.call_or_fail(c, tag + ":cumsum_does_not_raise", lambda: obj.cumsum(y))
+            ok2, tot = kit.call_or_fail(c, tag + ":integrate_does_not_raise", lambda: obj.integrate(y))
+        if not (ok and ok2):
+            return
+        if lam.unfinished_cuts():
+            raise OutOfSubset("a cut loop was left early: %s" % lam.unfinished_cuts())
+        c.check(tag + ":1-D_y:cumsum_is_shaped_like_y", isinstance(cs, lam.LT) and len(cs.shape) == 1 and lam._same_dim(cs.shape[0], n))
+        c.check(tag + ":1-D_y:integrate_is_a_scalar", isinstance(tot, lam.LT) and tot.shape == ())
+        r, col = z3.Int("r"), z3.Int("c")
+        comb = lambda rr, cc_: lam.linear_summand(cs.fn((rr,)), cc_)[0]
+        nsum = lam.linear_summand(cs.fn((r,)), col)[1]
+        c.check(tag + ":cumsum_reduces_over_all_samples", lam._same_dim(nsum, n))
+        tsum, ntot = lam.linear_summand(tot.fn(()), col)
+        funcs = {"x": x.uf, "y": y.uf}
+        K = None
+        if method == "cspline":
+            K = _any_size_slopes(c, tag, bc or "natural", x, y, n, funcs)
+            if K is None:
+                return
+        base = [n >= (3 if method == "cspline" else 2)]
+        # row 0: nothing integrated yet
+        A.prove_with(c, tag + ":first_entry_is_zero", comb(z3.IntVal(0), col) == 0, base + [col >= 0, col < n] + A.facts_at([z3.IntVal(0)], [col]))
+        # the last row is what integrate() sums
+        A.prove_with(c, tag + ":last_entry_equals_integrate", tsum == comb(n - 1, col),
+                     base + [col >= 0, col < n] + A.facts_at([n - 1, n - 2, n - 3], [col]))
+        cases = []            # (name, hypotheses on r, previous row, candidate columns, integer points, labels)
+        if method in ("trapz", "cspline"):
+            cases.append(("", [r >= 1, r < n], r - 1, [r - 1, r], A.knot_points(r, -1, 0)))
+        else:
+            cases.append(("[r=1]", [r == 1, r < n], r - 1, [r - 1, r], A.knot_points(r, -1, 0), [(r, z3.IntVal(1))]))
+            cases.append(("[r=2]", [r == 2, r < n], r - 2, [r - 2, r - 1, r], A.knot_points(r, -2, 0), [(r, z3.IntVal(2))]))
+            cases.append(("[even r>=4]", [r >= 4, r < n, r % 2 == 0], r - 2, [r - 2, r - 1, r], A.knot_points(r, -2, 0)))
+            cases.append(("[odd r>=3]", [r >= 3, r < n, r % 2 == 1], r - 1, [r - 2, r - 1, r], A.knot_points(r, -2, 0)))
+        for case in cases:
+            nm, rh, rp, cands, pts = case[:5]
+            sb = case[5] if len(case) > 5 else None
+            hyps = base + rh
+            rows = [r, r - 1, r - 2]
+            g = lambda cc_: comb(r, cc_) - comb(rp, cc_)
+            ok_, explicit = A.finite_sum(c, tag + nm, g, cands, n, hyps, rows, "row_increment_of_the_weights")
+            facts = [f_ for a_ in cands for f_ in A.facts_at(rows, [a_])]
+            if method == "simpson":
+                if nm == "[r=1]":
+                    want = (Y[r - 1] + Y[r]) / 2 * (X[r] - X[r - 1])
+                elif nm in ("[r=2]", "[even r>=4]"):
+                    want = parabola_integral(X[r - 2], X[r - 1], X[r], Y[r - 2], Y[r - 1], Y[r], X[r - 2], X[r])
+                else:
+                    want = parabola_integral(X[r - 2], X[r - 1], X[r], Y[r - 2], Y[r - 1], Y[r], X[r - 1], X[r])
+            else:
+                _, want = spec_increment(method, X, Y, K, r)
+            labels = [lb for _, lb in pts]
+            fs = dict(funcs)
+            if K is not None:
+                fs[K.decl.name()] = K.decl
+            A.canon_prove(c, tag + ":cumsum[r]_is_the_integral_of_the_interpolant_from_the_first_sample_to_sample_r" + nm,
+                          explicit == want, hyps, pts, fs, [], facts, widths=("x", labels), subst=sb,
+                          linear_in=["y@"] + ([K.decl.name() + "@"] if K is not None else []))
+        A.sum_lemmas(c, (2, 3))
+        c.prove("canary", z3.BoolVal(False), kind="canary")
+    return kit.run_unit("any_size[%s%s]" % (method, "/" + bc if bc else ""), run)
+
+
+def _any_size_slopes(c, tag, bc, x, y, n, funcs):
+    from props.C14 import any_size_slope_conditions
+    return any_size_slope_conditions(c, tag, bc, x, y, n, funcs)
+
+
 def units(tier):
     us = []
     for n in (2, 3, 4, 5, 6, 7):
@@ -319,4 +406,6 @@ def units(tier):
     for mth, ys, d, kd in dims:
         us.append(("dims:%s[y%s,dim=%d,keepdim=%s]" % (mth, list(ys), d, kd), lambda mth=mth, ys=ys, d=d, kd=kd: unit_dims(mth, ys, d, kd)))
     us.append(("rejections", unit_rejections))
+    for mth, bc in (("trapz", None), ("simpson", None)):
+        us.append(("any_size[%s]" % mth, lambda mth=mth: unit_any_size(mth)))
     return us
